@@ -11,18 +11,25 @@ from .common import DECIDER, RANDOM_SOURCE
 LEVEL_TEXT = (
     "(R1) Grammar.update_weights is interpreted (finite model, exact rational arithmetic, helpers and "
     "staticmethods inlined) on two rules (R1 -> p1 | p2, R2 -> p3 | p4 | p5) with raw weights, a learning rate "
-    "and extra weights: afterwards every production carries (raw + rate * extra) / (sum of that over its own "
-    "rule), the weights of each rule sum to exactly one, and the value is written back to every production, not "
-    "only to the listed subtypes (a failed assertion or division by zero in the model is a violation); "
-    "get_weights is interpreted on a declaration table: an unweighted production counts exactly 1.0 and a "
-    "declared 0 stays 0; (R2) production weights are stored only by the weight decorator and update_weights, and "
-    "extract_grammar, interpreted on four declaration tables, normalises (update_weights(1, <current weights>)) "
-    "exactly when some class declares a weight - a declared weight of 0 counts; (R3) choice_weighted never "
-    "returns a zero-weight option (C18.R3 model on eight weight vectors plus the affine 'draw < total' proof) and"
-    " the weights are aligned with the alternatives at every call site (the same filtered / sorted sequence feeds"
-    " both lists, also when they are built by one loop appending to both); (R4) the class decorators that write "
-    "grammar metadata (weight, abstract) are interpreted in both orders on a model class: both entries are "
-    "present afterwards. Floating-point rounding of the ratios is not decided."
+    "and extra weights: (and on the extraction call for a grammar one of whose rules declares no weight at all): "
+    "afterwards every production carries (raw + rate * extra) / (sum of that over its own rule), the weights of "
+    "each rule sum to exactly one, and the value is written back to every production, not only to the listed "
+    "subtypes (a failed assertion or division by zero in the model is a violation); get_weights is interpreted on"
+    " a declaration table: an unweighted production counts exactly 1.0 and a declared 0 stays 0; (R2) production "
+    "weights are stored only by the weight decorator and update_weights, and extract_grammar, interpreted on four"
+    " declaration tables, normalises (update_weights(1, <current weights>)) exactly when some class declares a "
+    "weight - a declared weight of 0 counts; (R3) choice_weighted never returns a zero-weight option (C18.R3 "
+    "model on eight weight vectors plus the affine 'draw < total' proof) and the weights are aligned with the "
+    "alternatives at every call site (the same filtered / sorted sequence feeds both lists, also when they are "
+    "built by one loop appending to both); (R5) every chooser that reaches choice_weighted is interpreted on "
+    "three alternatives for declared weights with zeros in every position x minimum-depth tables x recursive sets"
+    " x context depths x heuristic targets: the effective weights keep declared zeros at zero and are never all "
+    "zero while a positive-weight alternative is offered (choice_weighted would fall through to the first "
+    "alternative whatever its weight); every definition of the weight list that reaches the call is aligned; (R6)"
+    " rules are disjoint - on a model grammar with a production that has two abstract bases the interpreted "
+    "registration lists it under exactly one rule, so per-rule normalisation is well defined; (R4) the class "
+    "decorators that write grammar metadata (weight, abstract) are interpreted in both orders on a model class: "
+    "both entries are present afterwards. Floating-point rounding of the ratios is not decided."
 )
 UPDATE = "geneticengine.grammar.grammar:Grammar.update_weights"
 GETW = "geneticengine.grammar.grammar:Grammar.get_weights"
@@ -296,37 +303,44 @@ def rule_r3(ctx: Ctx) -> None:
                         e = e.args[0]
                     return e
                 chb = base(ch)
-                wsrc = w
+                srcs = [w]
                 if isinstance(w, ast.Name):
                     d = [a for a in walk_local(f.node) if isinstance(a, ast.Assign) and isinstance(a.targets[0], ast.Name) and a.targets[0].id == w.id]
-                    wsrc = d[-1].value if d else w
-                ok = False
-                why = f"weights '{norm(wsrc)[:50]}' are not computed element by element from the choices '{norm(ch)[:40]}'"
-                if isinstance(wsrc, ast.ListComp) and len(wsrc.generators) == 1 and not wsrc.generators[0].ifs:
-                    it = base(wsrc.generators[0].iter)
-                    ok = norm(it) == norm(chb)
-                    if ok and isinstance(wsrc.generators[0].target, ast.Name):
-                        v = wsrc.generators[0].target.id
-                        ok = v in {x.id for x in ast.walk(wsrc.elt) if isinstance(x, ast.Name)}
-                        if not ok:
-                            why = "the weight expression does not depend on the element it is paired with"
-                elif isinstance(wsrc, ast.List) and not wsrc.elts and isinstance(w, ast.Name):
-                    # weights = []; for alt in <choices>: weights.append(<expr of alt>)   - one append per element, unconditionally
-                    loops = [l for l in walk_local(f.node) if isinstance(l, ast.For) and norm(base(l.iter)) == norm(chb) and isinstance(l.target, ast.Name)]
-                    apps = [(l, x) for l in loops for x in ast.walk(l) if isinstance(x, ast.Call) and call_name(x) == "append"
-                            and isinstance(x.func, ast.Attribute) and isinstance(x.func.value, ast.Name) and x.func.value.id == w.id]
-                    other = [x for x in walk_local(f.node) if isinstance(x, ast.Call) and call_name(x) in ("append", "extend", "insert")
-                             and isinstance(x.func, ast.Attribute) and isinstance(x.func.value, ast.Name) and x.func.value.id == w.id
-                             and not any(x is a_[1] for a_ in apps)]
-                    if len(apps) == 1 and not other and isinstance(parent(parent(apps[0][1])), ast.For) \
-                            and apps[0][0].target.id in {x.id for x in ast.walk(apps[0][1]) if isinstance(x, ast.Name)}:
-                        ok = True
-                    else:
-                        ok = None
-                        why = f"how '{w.id}' is filled is not followed"
-                elif isinstance(wsrc, (ast.Name, ast.Attribute)):
-                    ok = True  # caller-provided parallel list (metahandler matrix row): alignment is the caller's contract
-                    ctx.accept("C19.R3", f.loc(c), "weights are a caller-supplied parallel sequence (probability-matrix row for an alphabet)")
+                    srcs = [a.value for a in d] or [w]
+
+                def aligned(wsrc):
+                    ok = False
+                    why = f"weights '{norm(wsrc)[:50]}' are not computed element by element from the choices '{norm(ch)[:40]}'"
+                    if isinstance(wsrc, ast.ListComp) and len(wsrc.generators) == 1 and not wsrc.generators[0].ifs:
+                        it = base(wsrc.generators[0].iter)
+                        ok = norm(it) == norm(chb)
+                        if ok and isinstance(wsrc.generators[0].target, ast.Name):
+                            v = wsrc.generators[0].target.id
+                            ok = v in {x.id for x in ast.walk(wsrc.elt) if isinstance(x, ast.Name)}
+                            if not ok:
+                                why = "the weight expression does not depend on the element it is paired with"
+                    elif isinstance(wsrc, ast.List) and not wsrc.elts and isinstance(w, ast.Name):
+                        # weights = []; for alt in <choices>: weights.append(<expr of alt>)   - one append per element, unconditionally
+                        loops = [l for l in walk_local(f.node) if isinstance(l, ast.For) and norm(base(l.iter)) == norm(chb) and isinstance(l.target, ast.Name)]
+                        apps = [(l, x) for l in loops for x in ast.walk(l) if isinstance(x, ast.Call) and call_name(x) == "append"
+                                and isinstance(x.func, ast.Attribute) and isinstance(x.func.value, ast.Name) and x.func.value.id == w.id]
+                        other = [x for x in walk_local(f.node) if isinstance(x, ast.Call) and call_name(x) in ("append", "extend", "insert")
+                                 and isinstance(x.func, ast.Attribute) and isinstance(x.func.value, ast.Name) and x.func.value.id == w.id
+                                 and not any(x is a_[1] for a_ in apps)]
+                        if len(apps) == 1 and not other and isinstance(parent(parent(apps[0][1])), ast.For) \
+                                and apps[0][0].target.id in {x.id for x in ast.walk(apps[0][1]) if isinstance(x, ast.Name)}:
+                            ok = True
+                        else:
+                            ok = None
+                            why = f"how '{w.id}' is filled is not followed"
+                    elif isinstance(wsrc, (ast.Name, ast.Attribute)):
+                        ok = True  # caller-provided parallel list (metahandler matrix row): alignment is the caller's contract
+                        ctx.accept("C19.R3", f.loc(c), "weights are a caller-supplied parallel sequence (probability-matrix row for an alphabet)")
+                    return ok, why
+                # every definition of the weight list that can reach the call must be aligned (a fall-back list as much as the first one)
+                verdicts = [aligned(x) for x in srcs]
+                ok = False if any(v is False for v, _ in verdicts) else (None if any(v is None for v, _ in verdicts) else True)
+                why = next((y for v, y in verdicts if v is False), next((y for v, y in verdicts if v is None), ""))
                 ctx.ob("C19.R3", f, c, f"weights passed to choice_weighted are aligned with {norm(ch)[:40]}", ok, "" if ok else why)
     ctx.floor("C19.R3", n, 3, "weighted-choice call sites")
 
